@@ -291,7 +291,8 @@ def run_parafac2(X, rank, k, seed, opts):
     if opts.pop("_reject_jumps", False):
         # a line search that computes its candidate as usual and then REJECTS it, answering exactly what the real line_step answers
         # on a rejection (the iterate and the error value it was given): the decision sequence "always reject", reachable with data
-        # but rarely (about 1 run in 20), made deterministic through the documented extension point linesearch=<instance>
+        # but rarely (about 1 run in 20), made deterministic through the extension point linesearch=<instance>.  (Before fix
+        # 0080ddd the value given was the previous iterate's error, which then stayed the last reported one.)
         from tensorly.decomposition._parafac2 import _BroThesisLineSearch
 
         class Rejecting(_BroThesisLineSearch):
@@ -445,7 +446,7 @@ def configs(tier):
     return cfg
 
 
-NO_PREFIX = ("nn_tucker_hals", "parafac2_ls")   # (parafac2_ls_reject included by prefix)   # fista/active-set inner loops are capped by the OUTER n_iter_max; PARAFAC2's line search overwrites rec_errors[-1]
+NO_PREFIX = ("nn_tucker_hals",)   # fista / active-set inner loops are capped by the OUTER n_iter_max   # fista/active-set inner loops are capped by the OUTER n_iter_max; PARAFAC2's line search overwrites rec_errors[-1]
 LS_CONFIGS = ("parafac_ls", "parafac_ls_cb", "parafac_ls_norm", "parafac_ls_mask", "parafac_ls_sparse", "parafac2_ls", "parafac2_ls_norm")
 # shapes whose last two modes have the same size: a shortcut pairing the MTTKRP with the wrong factor then yields a wrong NUMBER instead of a shape error
 SHAPES_EQ = {2: [(4, 4)], 3: [(3, 3, 3)], 4: [(2, 2, 2, 2)]}
@@ -848,59 +849,24 @@ def prefix_consistency(chk, name, entry, X, kind, rank, seed, o, recs):
                         "C06_list_prefix_consistent", observed=long, expected=short)
 
 
-# ----------------------------------------------------------------------------- known findings (classifiers on the failing input)
-def _cfg(f):
-    return str((f.get("inputs") or {}).get("config", ""))
-
-
-def clf_parafac2_rejected_jump_last(f):
-    """parafac2 with its (default) line search, last iteration is a line-search iteration (index even and > 5)"""
-    inp = f.get("inputs") or {}
-    k = inp.get("n_iter_max", 0)
-    ls_on = (inp.get("options") or {}).get("linesearch", True) is not False
-    dec = inp.get("observed_linesearch_decisions")
-    rejected = (dec is None) or (len(dec) > 0 and dec[-1] is False)
-    return (_cfg(f).startswith("parafac2") and f["predicate"] == "C06_last_report_is_error_of_returned" and ls_on
-            and k - 1 > 5 and (k - 1) % 2 == 0 and rejected)
-
-
-def clf_hooi_masked(f):
-    inp = f.get("inputs") or {}
-    return (_cfg(f).startswith(("tucker", "partial_tucker")) and (inp.get("options") or {}).get("mask") is not None
-            and f["predicate"] == "C06_last_report_is_error_of_returned")
-
-
-def clf_cmtf_converged(f):
-    inp = f.get("inputs") or {}
-    return (_cfg(f).startswith("cmtf") and ((inp.get("options") or {}).get("_tol") or 0) > 0
-            and f["predicate"] == "C06_last_report_is_error_of_returned")
-
-
-def clf_parafac_cb0_mask_sparse(f):
-    inp = f.get("inputs") or {}
-    o = inp.get("options") or {}
-    return (_cfg(f).startswith("parafac") and not _cfg(f).startswith("parafac2") and o.get("mask") is not None and bool(o.get("sparsity"))
-            and inp.get("callback_index") == 0 and f["predicate"] == "C06_callback_value_is_error_of_its_iterate")
-
-
-CLASSIFIERS = {"parafac_cb0_mask_sparse": clf_parafac_cb0_mask_sparse, "parafac2_rejected_jump_last": clf_parafac2_rejected_jump_last, "hooi_masked": clf_hooi_masked,
-               "cmtf_converged": clf_cmtf_converged}
+# ----------------------------------------------------------------------------- known findings
+# None at present: the four classes found in round 2 (parafac2 rejected line-search jump, masked HOOI, CMTF convergence exit,
+# parafac pre-loop callback under mask+sparsity) are repaired in /repo (known_findings.d/C06.json, "fixed") and are regressions now.
+CLASSIFIERS = {}
 
 
 def _install_local_known():
-    """common.load_known reads the aggregated known_findings.json (regenerated by the coordinator); until then this module's own
-    known_findings.d/C06.json is merged in at run time (local helper, common.py is untouched)"""
+    """known_findings.d/C06.json is authoritative for C06: common.load_known reads the aggregated known_findings.json, which is
+    regenerated by the coordinator and may lag behind (local helper, common.py is untouched)"""
     orig = C.load_known
     if getattr(orig, "_c06", False):
         return
 
     def load_known(prop):
-        ks = list(orig(prop))
         p = os.path.join(C.VERIF, "known_findings.d", "C06.json")
         if prop == "C06" and os.path.exists(p):
-            have = {k.get("id") for k in ks}
-            ks += [k for k in json.load(open(p)).get("findings", []) if k.get("property") == "C06" and k.get("id") not in have]
-        return ks
+            return [k for k in json.load(open(p)).get("findings", []) if k.get("property") == "C06"]
+        return list(orig(prop))
     load_known._c06 = True
     C.load_known = load_known
 
@@ -949,6 +915,13 @@ def run(chk):
                 continue
             recs[k] = rec
             nf = check_run(col, name, entry, X, kind, rank, k, seed, o, rec, light=light and not (rec.ls and rec.ls[-1] is False))
+            if name.startswith("parafac2") and "_tol" not in o and rec.errors is not None:
+                # PARAFAC2 loop skeleton, observable projection: number of recorded values (one per iteration, line search included)
+                ls_on = o.get("linesearch", True) is not False
+                lit_len = (f"(KP2Len {C.boolc(ls_on)} {C.boolc(bool(o.get('normalize_factors')))} {C.nat(k)} {C.nat(len(rec.errors))})")
+                col.add(lambda P, lit_len=lit_len: lit_len, dict(inputs=describe(name, entry, X, kind, rank, k, seed, o), what="PARAFAC2 skeleton: number of reported values",
+                                                                  entry=entry))
+                chk.count(key=(name, "p2len", k), nontrivial=k > 6)
             if "_tol" in o:
                 chk.hist("stopped_by_convergence", f"{name}: {len(series(rec)) < k}")
             if name in LS_CONFIGS and (k - 1) > 5 and (k - 1) % 2 == 0 and rec.ls:
@@ -962,7 +935,9 @@ def run(chk):
     error_calc_cases(col, chk.tier, rng)
     parafac2_error_cases(col, chk.tier, rng)
     trace_cases(col, chk.tier, rng)
-    failing, n_eval, broken = C.run_case_shards("C06", HEADER, "case", col.cases, shard=40 if chk.tier == "quick" else 120)
+    # quick: one wave of at most 16 shards
+    shard = max(30, min(64, -(-len(col.cases) // 16))) if chk.tier == "quick" else 120
+    failing, n_eval, broken = C.run_case_shards("C06", HEADER, "case", col.cases, shard=shard)
     chk.checker_cmds.append("coqc (vm_compute) on generated build/cases/C06/*.v: Corr.C06.failing")
     chk.cov["traces_validated_against_impl"] = n_eval
     chk.cov["skipped_ill_conditioned_or_raising"] = skipped
@@ -987,7 +962,7 @@ def run(chk):
                        "prefix runs: convergence tests neutralised (tol=0 where errors are still produced, 1e-300 where tol gates the error computation); "
                        "the break paths are covered by the skeleton theorems, the callback-driven stops and the convergence-stopped runs (tol > 0)"]
     chk.trusted = [                   "sparse components are the implementation's (returned, or sparsify_tensor on the imputed residual in the direct error_calc cases)",
-                   "line-search decisions are read from the verbose output of parafac / parafac2 (used for coverage histograms and the classifier of the PARAFAC2 finding only)",
+                   "line-search decisions are read from the verbose output of parafac / parafac2 (used for coverage histograms and to steer the extra line-search seeds only)",
                    "Q / dyadic execution of the model stands for the ring-regime model on rational inputs; KCPfast and KParafac2 re-check shortcut == residual exactly on each instance"]
     return chk.finish(CLASSIFIERS)
 
